@@ -382,3 +382,126 @@ def body_converted_value(which: int, i: int, j: int) -> int:
             return 6
         return -1
     return 0
+
+
+# ------------------------------------------------------------------ conditions on dataclass field types (rebuilt by type-variable substitution)
+
+_TC = t.TypeVar('_TC')
+
+
+class FC(pane.PaneBase):
+    x: t.Optional[A[t.Union[int, float], Positive]] = None
+    y: t.List[A[int, Positive]] = pane.field(default_factory=list)
+    z: t.Dict[str, t.Optional[A[float, NonNegative]]] = pane.field(default_factory=dict)
+    w: t.Union[A[t.Union[int, str], Condition(lambda v: v != 0 and v != '', 'truthy')], None] = None
+
+
+class GC(pane.PaneBase, t.Generic[_TC]):
+    x: t.Union[A[_TC, Positive], None] = None
+    y: t.List[A[_TC, Positive]] = pane.field(default_factory=list)
+    p: A[t.Optional[_TC], Condition(lambda v: v is None or v != 7, 'not 7')] = None
+
+
+GC_UF = GC[t.Union[int, float]]
+GC_I = GC[int]
+for _c in (FC, GC_UF, GC_I):
+    make_converter(_c)
+
+
+def field_value(fk, k, i, ci):
+    v = None if k == 0 else ((True if i > 0 else False) if k == 1 else ((cint(i) if ci else i) if k == 2 else (fl3(i) if k == 3 else ('ab' if i > 0 else ''))))
+    if fk == 0:
+        return {'x': v}, v
+    elif fk == 1:
+        return {'y': [1, v]}, v
+    elif fk == 2:
+        return {'z': {'k': v}}, v
+    elif fk == 3:
+        return {'w': v}, v
+    else:
+        return {'p': v}, v
+
+
+def _as_int(v):
+    """image under int: ints and bools (a bool converts to the int of the same value)"""
+    if isinstance(v, int):
+        return True, int(v)
+    return False, None
+
+
+def _as_float(v):
+    if isinstance(v, (int, float)):
+        try:
+            return True, float(v)
+        except OverflowError:
+            return False, None
+    return False, None
+
+
+def _as_num(v):
+    """image under Union[int, float]"""
+    (ok, x) = _as_int(v)
+    if ok:
+        return ok, x
+    return _as_float(v)
+
+
+def field_want(ck, fk, v):
+    """reference verdict, written from the field declarations above"""
+    if ck == 0:       # FC
+        if fk == 0:
+            (ok, x) = _as_num(v)
+            return v is None or (ok and x > 0)
+        elif fk == 1:
+            (ok, x) = _as_int(v)
+            return ok and x > 0
+        elif fk == 2:
+            (ok, x) = _as_float(v)
+            return v is None or (ok and x >= 0)
+        elif fk == 3:
+            (ok, x) = _as_int(v)
+            return v is None or (ok and x != 0) or (type(v) is str and v != '')
+        return None
+    (ok, x) = _as_int(v) if ck == 2 else _as_num(v)
+    if fk == 0:
+        return v is None or (ok and x > 0)
+    elif fk == 1:
+        return ok and x > 0
+    elif fk == 4:
+        return v is None or (ok and x != 7)
+    return None
+
+
+@obligation(pre="0 <= ck <= 2 and 0 <= fk <= 4 and 0 <= k <= 4 and (fk <= 3 if ck == 0 else fk in (0, 1, 4))", witnesses=(0, -1), timeout=200)
+def body_field_conditions(ck: int, fk: int, k: int, i: int) -> int:
+    """a condition written inside a dataclass field type (under Optional/Union/List/Dict, around a union, around a type variable) is enforced as written"""
+    cls = FC if ck == 0 else (GC_UF if ck == 1 else GC_I)
+    (d, v) = field_value(fk, k, i, True)
+    want = field_want(ck, fk, v)
+    if want is None:
+        return -99
+    try:
+        cls.from_data(d)
+        ok = True
+    except pane.ConvertError:
+        ok = False
+    except Exception as e:
+        if crosshair_exc(e):
+            raise
+        return 7
+    if ok and not want:
+        return 1
+    if want and not ok:
+        return 2
+    return 0 if ok else -1
+
+
+from hlib import fl3
+for _ck in range(3):
+    for _fk in range(5):
+        for _k in range(5):
+            for _i in (0, 1):
+                try:
+                    body_field_conditions(_ck, _fk, _k, _i)
+                except Exception:
+                    pass
